@@ -87,7 +87,7 @@ interface IO { n: S }
 type O implements IO %s { n: S }
 type P implements IO { n: S }
 union UO = O | P
-type Query { f(i: I %s): S %s  e(c: Color %s): Color  o: O  io: IO  uo: UO  ios: [IO]  g(x: S = 7 %s): S }
+type Query { f(i: I %s): S %s  e(c: Color %s): Color  o: O  io: IO  uo: UO  ios: [IO]  g(x: S = 7 %s): S  sn: S  s5: S  ls: [S]  on: O  os: [O] }
 """ % (dirs("S", k), dirs("E", k), dirs("RED", k), dirs("I", k), dirs("x", k), dirs("O", k), dirs("arg", k), dirs("f", k), dirs("earg", k), dirs("garg", k))
 
 
@@ -112,6 +112,13 @@ for _k in range(6):
     async def _rg(parent, args, ctx, info):
         LOG.append(("resolver-g", args.get("x")))
         return args.get("x")
+
+    for _f, _v in (("sn", None), ("s5", 5), ("ls", [5, None, 6]), ("on", None), ("os", [{"n": 5}, None])):
+        def _mk(v):
+            async def _r(parent, args, ctx, info):
+                return v
+            return _r
+        Resolver("Query." + _f, schema_name=_name)(_mk(_v))
 
     @Resolver("Query.o", schema_name=_name)
     async def _ro(parent, args, ctx, info):
@@ -364,6 +371,35 @@ def c13_default_arg(v: int, mode: int) -> bool:
         val = ap(val, t)
     observe(("expected", val, elog))
     return verdict(r["data"]["g"] == val and same_log(log, elog))
+
+
+@obligation(tier="quick", timeout=60, shards=[{"k": k} for k in range(6)], samples=[{"which": 0}, {"which": 1}],
+            selectors=["which: list of a decorated scalar / list of a decorated object type", "shard: directives per element"], bounds="6 schemas x 2 lists with a null item",
+            note="a null ITEM of a list gets exactly the type-level output hooks a null FIELD value of the same type gets, a non-null item those of a non-null field value: "
+                 "the hook log of `[T]` is the sum of the logs of its items taken one by one")
+def c13_null_items(which: int) -> bool:
+    """
+    post: _
+    """
+    k = shard()["k"]
+    which = pick(which, 2)
+
+    def outs(q):
+        del LOG[:]
+        ok, r = safe(lambda: env.run(ENGS[k].execute(q)))
+        observe(q, r, list(LOG))
+        if not ok or r.get("errors"):
+            return None, None
+        return r["data"], sorted((e[1], e[2]) for e in LOG if e[0] == "out>")
+    if which == 0:
+        dn, ln = outs("{ sn }"); d5, l5 = outs("{ s5 }"); dl, ll = outs("{ ls }")
+        if ln is None or l5 is None or ll is None:
+            return verdict(False)
+        return verdict(ll == sorted(l5 + ln + l5) and dl["ls"][1] == dn["sn"] and dl["ls"][0] == d5["s5"])
+    dn, ln = outs("{ on { n } }"); do, lo = outs("{ o { n } }"); dl, ll = outs("{ os { n } }")
+    if ln is None or lo is None or ll is None:
+        return verdict(False)
+    return verdict(ll == sorted(lo + ln) and dl["os"][1] == dn["on"] and dl["os"][0] == do["o"])
 
 
 @obligation(tier="quick", timeout=120, shards=[{"k": k} for k in range(6)],
